@@ -185,3 +185,38 @@ def c12_histories(tier="quick", seed=0):
             by[op][1] = (hist, step, why)
     return [ob(f"C12.bounded.histories.{op}", b is None, "B", f"appears in {n} history steps" if b is None else f"step {b[1]} of {b[0]}: {b[2]}",
                witness=(repr(b[0]) if b else None), confirmed=True if b else None, domain=n) for op, (n, b) in sorted(by.items())]
+
+
+# ---- bounded: every evaluation of a creating expression yields a fresh object -----------------------------------------
+FRESH = ["new Function('a', 'return a + 1')", "new Function('return 1')", "(function () { return 1; })", "(() => 1)", "/ab+c/g", "new RegExp('ab+c', 'g')", "({})", "[]",
+         "new Object()", "Object.create(null)", "new Error('x')", "new Uint8Array(2)", "new ArrayBuffer(4)", "(function () {}).bind(null)", "eval('({})')", "eval('(function () {})')",
+         "Object.keys({a: 1})", "'a,b'.split(',')", "JSON.parse('{\"a\": [1]}')", "[1, 2].map(function (x) { return x; })", "Object.assign({}, {a: 1})"]
+
+
+@groups.group(id="C12.bounded.fresh-objects", prop="C12", kind="B", functions=["microjs.context:Context.eval"])
+def c12_fresh(tier="quick", seed=0):
+    """the same creating expression evaluated twice -- in one eval, in two evals of one context, after an eval that
+    threw -- gives two distinct objects whose properties (and prototype objects) are independent"""
+    from microjs import Context
+    out = []
+    for i, e in enumerate(FRESH):
+        probes = [
+            ("same-eval", [f"var a = {e}, b = {e}; a.mark = 1; (a !== b) + '|' + (b.mark === undefined)"], "true|true"),
+            ("two-evals", [f"var a = {e}; a.mark = 1; 0", f"var b = {e}; (a !== b) + '|' + (b.mark === undefined)"], "true|true"),
+            ("after-throw", [f"var a = {e}; a.mark = 1; if (a.prototype) a.prototype.m = 1; throw 1", f"var b = {e}; (b.mark === undefined) + '|' + (!b.prototype || b.prototype.m === undefined)"], "true|true"),
+            ("prototype", [f"var a = {e}, b = {e}; if (a.prototype) {{ a.prototype.m = 1; }} (!b.prototype || (b.prototype.m === undefined && a.prototype !== b.prototype)) + ''"], "true"),
+        ]
+        bad = None
+        for pname, srcs, want in probes:
+            c = Context(time_limit=5)
+            got = None
+            for s_ in srcs:
+                try:
+                    got = c.eval(s_)
+                except Exception as ex:  # noqa
+                    got = "!" + type(ex).__name__
+            if got != want and bad is None:
+                bad = (pname, srcs, got)
+        out.append(ob(f"C12.bounded.fresh-objects.{i:02d}", bad is None, "B", f"{e}: fresh in {len(probes)} settings" if bad is None else f"{e} [{bad[0]}]: {bad[2]!r}",
+                      witness=("; ".join(bad[1]) if bad else None), confirmed=True if bad else None, domain=len(probes)))
+    return out
